@@ -183,6 +183,7 @@ func (m *CPU) Run(app risc.Application) (int, error) {
 				for _, wu := range m.writeUnits {
 					for !wu.isEmpty() || !m.writeBus.IsEmpty() {
 						m.ctx.VerifTick(cycle)
+						m.writeBus.Connect(cycle + 1)
 						_ = wu.Cycle(wuReq{sequenceID})
 					}
 				}
